@@ -71,6 +71,7 @@ FRAMES_PROPS = {'C06', 'C20'}                       # C01, C07 run it themselves
 NO_RAISE_PROPS = {'C07', 'C20'}                     # C01 runs it itself
 MORPHY_PROPS = {'C09'}                              # C17 runs it itself
 ILI_IDENTITY_PROPS = {'C19'}                        # C10 runs it itself
+ROUTE_PROPS = {'C01', 'C05', 'C06', 'C20'}          # add(): lexicons are added unless ALL are skipped (C07 runs it itself)
 
 
 def shared_contracts(sess: Session):
@@ -102,6 +103,9 @@ def shared_contracts(sess: Session):
         from contracts import C17
         C17.init_bounded(sess)
         C17.call_bounded(sess)
+    if prop in ROUTE_PROPS:
+        from contracts import C07
+        check_all(C07.route_obligations())
     if prop in ILI_IDENTITY_PROPS:
         from contracts import C10
         check_all([ob for ob in C10.identity_obligations() if '.ILI.' in ob.name])
